@@ -264,6 +264,9 @@ pub enum Rec {
     CallWrite(usize),
     CallEnd,
     Ret { res: Res, out_len: usize, mem: usize },
+    /// monitor at the handler boundary (C14): a source location read again after the handler's own edits differs from
+    /// what was read before them, or an attribute location breaks the documented rule (None once set, unchanged otherwise)
+    LocChanged { what: String, before: Option<(usize, usize)>, after: Option<(usize, usize)> },
     /// write() attempted again after an error: did it panic?
     Probe { panicked: bool },
     Enc(String),
@@ -561,6 +564,10 @@ macro_rules! impl_engine {
                                         return injected();
                                     }
                                     apply_end_tag_ops(et, &inner, hid, start);
+                                    let after = loc(et.source_location());
+                                    if after != (s0, e0) {
+                                        lock(&sh2).log.push(Rec::LocChanged { what: "end tag".into(), before: Some((s0, e0)), after: Some(after) });
+                                    }
                                     Ok(())
                                 }));
                                 if r.is_err() {
@@ -568,6 +575,35 @@ macro_rules! impl_engine {
                                 }
                             }
                             _ => {}
+                        }
+                    }
+                    {
+                        // location monitor: edits never move what source_location() reports
+                        let after = loc(el.source_location());
+                        if after != (start, end) {
+                            lock(&sh).log.push(Rec::LocChanged { what: "element".into(), before: Some((start, end)), after: Some(after) });
+                        }
+                        let set_names: Vec<String> = ops.iter().filter_map(|o| if let Op::SetAttr(n, _) = o { Some(n.to_ascii_lowercase()) } else { None }).collect();
+                        let mut seen: Vec<String> = vec![];
+                        for a in el.attributes() {
+                            let n = a.name();
+                            if seen.contains(&n) {
+                                continue;
+                            }
+                            seen.push(n.clone());
+                            let (nl, vl) = (a.name_source_location().map(loc), a.value_source_location().map(loc));
+                            if set_names.contains(&n) {
+                                if nl.is_some() || vl.is_some() {
+                                    lock(&sh).log.push(Rec::LocChanged { what: format!("attribute {n:?} was set by this handler, its locations must be None (name, then value)"), before: nl, after: vl });
+                                }
+                            } else if let Some(pre) = rec.attrs.iter().find(|p| p.name == n) {
+                                if (pre.name_loc, pre.value_loc) != (nl, vl) {
+                                    lock(&sh).log.push(Rec::LocChanged { what: format!("untouched attribute {n:?}: value location before / after the handler's edits"), before: pre.value_loc, after: vl });
+                                    if pre.name_loc != nl {
+                                        lock(&sh).log.push(Rec::LocChanged { what: format!("untouched attribute {n:?}: name location before / after the handler's edits"), before: pre.name_loc, after: nl });
+                                    }
+                                }
+                            }
                         }
                     }
                     if post_read {
@@ -616,6 +652,10 @@ macro_rules! impl_engine {
                             }
                         }
                     }
+                    let after = loc(t.source_location());
+                    if after != (start, end) {
+                        lock(&sh).log.push(Rec::LocChanged { what: "text chunk".into(), before: Some((start, end)), after: Some(after) });
+                    }
                     Ok(())
                 }
             }
@@ -640,6 +680,10 @@ macro_rules! impl_engine {
                             let _ = c.set_text(s);
                         }
                     }
+                    let after = loc(c.source_location());
+                    if after != (start, end) {
+                        lock(&sh).log.push(Rec::LocChanged { what: "comment".into(), before: Some((start, end)), after: Some(after) });
+                    }
                     Ok(())
                 }
             }
@@ -660,6 +704,10 @@ macro_rules! impl_engine {
                         if matches!(op, Op::Remove) {
                             d.remove();
                         }
+                    }
+                    let after = loc(d.source_location());
+                    if after != (start, end) {
+                        lock(&sh).log.push(Rec::LocChanged { what: "doctype".into(), before: Some((start, end)), after: Some(after) });
                     }
                     Ok(())
                 }
